@@ -668,7 +668,7 @@ class Cone(Quadric):
         if radius == 0:
             raise ValueError("The radius of a cone can not be zero.")
 
-        from geometer.operators import angle, dist
+        from geometer.operators import dist
 
         h = dist(vertex, base_center)
         c = (radius / h) ** 2
@@ -697,9 +697,13 @@ class Cone(Quadric):
         new_axis = Line(vertex, base_center)
 
         if new_axis != axis:
-            a = angle(axis, new_axis)
-            e = axis.join(new_axis)
-            t = rotation(a, axis=Point(*e.array[:3]))
+            # rotation that turns the z-direction into the direction d of the new axis: by the angle between them
+            # about z x d (the matrix below applies the inverse of t; rotation() turns clockwise about its axis); the oriented angle() of two lines has no
+            # canonical sign relative to the normal of their common plane
+            d = np.real(new_axis.direction.array[:3])
+            d = d / np.linalg.norm(d)
+            a = np.arccos(np.clip(d[2], -1, 1))
+            t = rotation(a, axis=Point(*np.cross([0, 0, 1], d)))
             t = translation(v) * t * translation(-v)
             m = t.array.T.dot(m).dot(t.array)
 
